@@ -500,6 +500,19 @@ class C02(Check):
                         acc.violation('v2-parse-after-an-unfinished-parse-on-the-same-object', {'kind': 'long', 'first': a, 'second': b, 'how': how},
                                       {'err': err, 'got_n': None if got is None else len(got), 'tables': repr((tp, pn))[:160]})
                     del kept
+            # any padding length: zero fills that end just before / at / past the 16K and 32K boundaries of the dump (a small thread map
+            # with a long fill; a thread map that itself ends 32 / 96 bytes before the boundary with a short fill)
+            for n, pad in [(0, 0x4000 - 0x120 + d) for d in (-64, -1, 0, 1, 64, 65)] + [(0, 0x8000 - 0x120 + d) for d in (0, 64)] + \
+                          [(502, 0), (502, 32), (502, 64), (502, 96), (500, 96), (500, 4096), (1014, 4096)]:
+                threads = [(1000 + i, 7 + i % 3, 'p%d' % (i % 5)) for i in range(n)]
+                recs = [RECORDS['cap'], RECORDS['ff'], RECORDS['cap']]
+                blob = v2(threads, pad, recs)
+                tp, pn = {}, {}
+                got, err, _ = parse_kd(blob, tp, pn)
+                acc.case(nontrivial=True, transitions=3, outcome=h64(('fill', n, pad)))
+                exp_tp, exp_pn = thread_tables(threads)
+                if err or got != [ref_decode(r) for r in recs] or (tp, pn) != (exp_tp, exp_pn):
+                    acc.violation('v2-long-fill-events', {'kind': 'long', 'thread_map_entries': n, 'pad': pad}, {'err': err, 'got_n': len(got), 'exp_n': 3})
             # the dump does not begin at stream position 0 (every pad kind, with and without thread map)
             for off in (1, 7, 8, 63, 64, 0x100, 0x120, 0x123, 4000, 4091, 4096, 4100):
                 for tm in ((), (0,), (0, 1)):
